@@ -55,6 +55,16 @@ impl Divert {
     }
 
     pub fn get_target_path_string(self: &Rc<Self>) -> Option<String> {
+        // The target of an external call is the name of a function, not a place in
+        // the content tree: it must never be shortened to a relative path.
+        if self.is_external {
+            return self
+                .target_path
+                .borrow()
+                .as_ref()
+                .map(Path::get_components_string);
+        }
+
         self.get_target_path()
             .as_ref()
             .map(|p| self.compact_path_string(p))
